@@ -4,6 +4,7 @@ use crate::explore::{Ctx, Meta, Report, Tier};
 pub mod buildcheck;
 pub mod c01;
 pub mod c02;
+pub mod c03;
 pub mod c04;
 pub mod c06;
 pub mod c07;
@@ -30,6 +31,7 @@ pub fn meta(id: &str) -> Option<Meta> {
     Some(match id {
         "C01" => c01::meta(),
         "C02" => c02::meta(),
+        "C03" => c03::meta(),
         "C04" => c04::meta("C04"),
         "C05" => c04::meta("C05"),
         "C06" => c06::meta(),
@@ -61,6 +63,7 @@ pub fn run_worker(id: &str, ctx: &Ctx, rep: &mut Report) {
     match id {
         "C01" => c01::run(ctx, rep),
         "C02" => c02::run(ctx, rep),
+        "C03" => c03::run(ctx, rep),
         "C04" => c04::run(ctx, rep, "C04"),
         "C05" => c04::run(ctx, rep, "C05"),
         "C06" => c06::run(ctx, rep),
@@ -97,6 +100,7 @@ pub fn replay(id: &str, case: &serde_json::Value) -> Result<Option<String>, Stri
     match id {
         "C01" => c01::replay(case),
         "C02" => c02::replay(case),
+        "C03" => c03::replay(case),
         "C04" => c04::replay("C04", case),
         "C05" => c04::replay("C05", case),
         "C06" => c06::replay(case),
